@@ -69,6 +69,8 @@ def _verify(F, sc, rd_meta, records_read, desc, info):
     if rd_meta["codec"] != sc.codec:
         raise Violation("self-describing", "codec-differs", detail=dict(info, read=rd_meta["codec"]), scenario=desc)
     for k, v in (sc.metadata or {}).items():
+        if k.startswith("avro."):
+            continue   # reserved keys describe the file, not what the caller happened to pass
         if rd_meta["metadata"].get(k) != v:
             raise Violation("self-describing", "metadata-differs", detail=dict(info, key=k, read=rd_meta["metadata"].get(k), given=v), scenario=desc)
 
